@@ -4,10 +4,11 @@ import numpy as np
 from common import *
 
 ID = 'C16'
-COQ_FILES = ['Base/Mat.v', 'Base/ListX.v', 'Model/Components.v', 'Proofs/Components.v', 'Properties/C16.v']
+COQ_FILES = ['Base/Mat.v', 'Base/ListX.v', 'Model/Components.v', 'Proofs/Components.v', 'Proofs/ComponentsDistance.v',
+             'Properties/C16.v']
 THEOREMS = ['C16_fold_invariant', 'C16_components_iff_path', 'C16_labels_1_to_m', 'C16_sizes_are_counts',
             'C16_isolated_singletons', 'C16_asym_rejected', 'C16_number_of_components_def',
-            'C16_number_is_class_count', 'C16_agrees_with_distance']
+            'C16_number_is_class_count', 'C16_agrees_with_distance', 'C16_agrees_with_distance_bin']
 RULE = ('every labelled undirected graph on n<=5 nodes (n<=6 thorough) + random structured graphs n=1..14: forests, '
         'stars with the hub numbered first/last, matchings joined by late connector edges, interleaved cliques, '
         'paths/caterpillars/binary trees under random and reversed numberings, Erdos-Renyi at several densities, '
@@ -19,8 +20,10 @@ ASSUMES = ['weights enter the code only through `A == A.T` and `!= 0`, so the mo
            '(dyadic float weights are multiplied by 8 before they are handed to the model)',
            'a python set is modelled as a duplicate-free list: the code only uses isdisjoint/union/in/len on them, '
            'so the (unspecified) iteration order of a set cannot influence the result; labels are therefore compared EXACTLY']
-TRUSTED = ['the premise of C16_agrees_with_distance (finite distance <=> joined by a path) is not proved here for '
-           'distance_bin/breadthdist/reachdist; that agreement is checked directly on the implementation by the harness']
+TRUSTED = ['C16_agrees_with_distance_bin composes the C16 theorems with C03\'s distance_bin_inf_iff (imports Model/Distance.v, '
+           'Proofs/DistanceBase.v, Proofs/DistanceBin.v of property C03; that the distance_bin MODEL is the code is C03\'s correspondence); '
+           'for breadthdist/reachdist the premise of C16_agrees_with_distance (finite distance <=> joined by a path) is not proved '
+           '(C03 has only the soundness half); the agreement of all three routines is checked directly on the implementation by the harness']
 
 
 # ---------------------------------------------------------------- independent oracle
